@@ -391,8 +391,10 @@ func (h history) styles() string {
 type runOpts struct {
 	mat        *certenv.Material
 	tmp        string
-	handshakes bool // real TLS handshakes at the quiescent points (used on the undisturbed schedule of every history)
-	selfcheck  bool // compare the model's idea of the disk with the real files after every step
+	handshakes bool      // real TLS handshakes at the quiescent points (used on the undisturbed schedule of every history)
+	selfcheck  bool      // compare the model's idea of the disk with the real files after every step
+	acts       *[]string // if set: receives every action of the execution with what the proxy presented after it
+	steadyOnly bool      // no updater step before Start has added both watches (used to look for a simpler witness)
 	prune      bool
 	stats      *stats
 }
@@ -643,6 +645,16 @@ func runOne(t *testing.T, h history, c *mc.Chooser, o runOpts) (out mc.Outcome) 
 				wopts = append(wopts, option{label: "W:deliver", kind: 1})
 			}
 			uopt := idx < len(h.steps)
+			if o.steadyOnly && uopt {
+				if !started {
+					uopt = false
+				}
+				for _, p := range ps {
+					if strings.HasPrefix(p.note, siteAdd+"{") {
+						uopt = false
+					}
+				}
+			}
 			if len(wopts) == 0 && !uopt {
 				break
 			}
@@ -784,6 +796,13 @@ func runOne(t *testing.T, h history, c *mc.Chooser, o runOpts) (out mc.Outcome) 
 			ps = g.list()
 			attribute(ps, from, fresh)
 			check(when)
+			if o.acts != nil {
+				e.mu.Lock()
+				dc, _ := model.Disk(certenv.Cert)
+				dk, _ := model.Disk(certenv.Key)
+				*o.acts = append(*o.acts, fmt.Sprintf("%s  => disk(cert=%v,key=%v) presented=%s", when, dc, dk, last.code()))
+				e.mu.Unlock()
+			}
 			// quiescent?
 			e.mu.Lock()
 			pending = inflight != nil || model.Pending()
@@ -1002,7 +1021,7 @@ func validateModel(rep *ev.Report, mat *certenv.Material, tmp string, depth int,
 	}
 	rep.Add("traces_validated_against_impl", int64(n))
 	for d := range distinct {
-		rep.Note("distinct_real_event_traces", mc.Hash64(d))
+		rep.Note("real_event_trace_variants_seen_timing_dependent", mc.Hash64(d))
 	}
 }
 
@@ -1030,6 +1049,7 @@ func replayFile(t *testing.T, rep *ev.Report, path string, mat *certenv.Material
 			History []string `json:"history"`
 			Merge   bool     `json:"inotify_merge_policy"`
 			Choices []int    `json:"choices"`
+			Steady  bool     `json:"no_update_during_startup"`
 		} `json:"replay"`
 	}
 	if err := json.Unmarshal(b, &f); err != nil {
@@ -1055,9 +1075,13 @@ func replayFile(t *testing.T, rep *ev.Report, path string, mat *certenv.Material
 		h.steps = append(h.steps, st)
 	}
 	st := &stats{feat: map[string]struct{}{}}
+	var acts []string
 	out, trace := mc.Replay(f.Replay.Choices, func(c *mc.Chooser) mc.Outcome {
-		return runOne(t, h, c, runOpts{mat: mat, tmp: tmp, handshakes: true, selfcheck: true, stats: st})
+		return runOne(t, h, c, runOpts{mat: mat, tmp: tmp, handshakes: true, selfcheck: true, stats: st, acts: &acts, steadyOnly: f.Replay.Steady})
 	})
+	for _, a := range acts {
+		t.Log(a)
+	}
 	rep.Add("evaluations", 1)
 	rep.Add("states", st.actions)
 	rep.Add("transitions", st.actions)
@@ -1272,10 +1296,29 @@ func TestCheck(t *testing.T) {
 	// confirm and report
 	confirm := runOpts{mat: mat, tmp: tmp, handshakes: tc.handshakes, selfcheck: true, prune: false, stats: &stats{}}
 	for _, fd := range founds {
+		// a witness without an update in the startup window, if there is one for the same signature, is easier to read
+		func() {
+			defer func() { recover() }()
+			so := confirm
+			so.steadyOnly = true
+			se := &mc.Explorer{Bound: 2, Deadline: time.Now().Add(20 * time.Second), RecheckN: 1 << 30}
+			se.Explore(func(c *mc.Chooser) mc.Outcome { return runOne(t, fd.h, c, so) })
+			for _, f := range se.Found {
+				if f.Sig == fd.f.Sig {
+					fd.f = f
+					confirm.steadyOnly = true
+					return
+				}
+			}
+			confirm.steadyOnly = false
+		}()
 		okN := 0
+		var acts []string
 		for i := 0; i < 5; i++ {
 			func() {
 				defer func() { recover() }()
+				acts = nil
+				confirm.acts = &acts
 				o, _ := mc.Replay(fd.f.Choices, func(c *mc.Chooser) mc.Outcome { return runOne(t, fd.h, c, confirm) })
 				for _, s := range o.Sigs {
 					if s == fd.f.Sig {
@@ -1294,7 +1337,8 @@ func TestCheck(t *testing.T) {
 			steps = append(steps, s.String())
 		}
 		rep.Violate(parseSig(fd.f.Sig), map[string]any{"layout": fd.h.layout.String(), "history": steps, "inotify_merge_policy": fd.h.merge,
-			"choices": fd.f.Choices, "schedule": fd.f.Trace, "presented_after_each_action": fd.f.Obs}, "%s", fd.f.What)
+			"choices": fd.f.Choices, "choice_labels": fd.f.Trace, "actions": acts, "no_update_during_startup": confirm.steadyOnly,
+			"legend": "U:<step> = the updater performs the step; W:start = Start is called; W:deliver = fsnotify hands the next queued event to Watch; W:<gate> = the watcher goroutine parked at <gate> runs on to its next gate (fsnotify.Add = before Watcher.Add, certwatcher.handleEvent = entry of handleEvent, tls.LoadX509KeyPair.betweenReads = certificate file read, key file not yet, certwatcher.ReadCertificate.beforeSwap = pair loaded and validated, not yet installed); after '=>' the disk contents and the generation the proxy presents after the action"}, "%s", fd.f.What)
 	}
 	rep.Add("histories", int64(done))
 	rep.Add("schedules", schedules)
